@@ -6,6 +6,8 @@ import GldapModel.Gldap.Mux
 import GldapModel.Directory.Bind
 import GldapModel.Runtime.Writer
 import GldapModel.Runtime.ConnLoop
+import GldapModel.Directory.Store
+import GldapModel.Spec.ClientEncode
 /-! `gmodel`: one line in, one line out. The Go harness feeds the same cases to the real
     gldap and to this driver and diffs the two output streams. -/
 open Ber Gldap Driver
@@ -239,6 +241,57 @@ def doTraceConn (evs : List Ev) : String :=
   | some r => r
   | none => "accept"
 
+def renderEntry (e : Directory.Entry) : String :=
+  hex e.dn ++ "{" ++ join ";" (e.attrs.map fun a => s!"{hex a.name}={join "," (a.values.map hex)}") ++ "}"
+
+/-- `<op>~<typehex>~<v>.<v>`; the values reach the handler BER-wrapped (C01) -/
+def parseChange (s : String) : Option (Int × Bytes × List Bytes) :=
+  match s.splitOn "~" with
+  | [o, t, vs] => do
+    let op ← o.toInt?
+    let ty ← unhex t
+    let vals ← (splitNE vs ".").mapM unhex
+    pure (op, ty, vals.map Spec.wrap)
+  | _ => none
+
+def doStoreOp (st : Directory.Store) (op : String) : Option (Directory.Store × String) :=
+  match op.splitOn ":" with
+  | ["A", dn, attrs] => do
+    let d ← unhex dn
+    let as ← (splitNE attrs "&").mapM parseAttr
+    let (st', code) := Directory.add st d as
+    pure (st', s!"{code}")
+  | ["M", dn, chs] => do
+    let d ← unhex dn
+    let cs ← (splitNE chs "&").mapM parseChange
+    let (st', code) := Directory.modify st d cs
+    pure (st', s!"{code}")
+  | ["D", dn] => do
+    let d ← unhex dn
+    let (st', code) := Directory.delete st d
+    pure (st', s!"{code}")
+  | ["S", base, filter] => do
+    let b ← unhex base
+    let f ← unhex filter
+    let (code, es) := Directory.search st b f
+    pure (st, s!"{code}[{join "," (es.map renderEntry)}]")
+  | ["U", us] => do
+    let es ← parseEntries us
+    pure ({ st with users := es }, "set")
+  | ["G", gs] => do
+    let es ← parseEntries gs
+    pure ({ st with groups := es }, "set")
+  | _ => none
+
+def doStore (st : Directory.Store) (ops : List String) : String := Id.run do
+  let mut s := st
+  let mut outs : List String := []
+  for op in ops do
+    match doStoreOp s op with
+    | none => return "bad-input"
+    | some (s', o) => s := s'; outs := outs ++ [o]
+  return join " | " outs
+
 def handle (line : String) : String :=
   match (line.splitOn " ").filter (· ≠ "") with
   | ["ber", h] => match unhex h with
@@ -291,6 +344,11 @@ def handle (line : String) : String :=
   | "trace" :: "conn" :: evs => match evs.mapM parseEv with
     | some es => doTraceConn es
     | none => "bad-input"
+  | ["tdstore", ud, gd, us, gs, ops] =>
+    match (stripPrefix ud "userdn=").bind unhex, (stripPrefix gd "groupdn=").bind unhex,
+          (stripPrefix us "users=").bind parseEntries, (stripPrefix gs "groups=").bind parseEntries, stripPrefix ops "ops=" with
+    | some ud, some gd, some us, some gs, some ops => doStore ⟨us, gs, ud, gd⟩ (splitNE ops ";")
+    | _, _, _, _, _ => "bad-input"
   | ["behera", g, e, c] =>
     match parseOptNat g, parseOptNat e, parseOptNat c with
     | some g, some e, some c => renderOutcome renderControl (newBehera Generated.beheraErrRange g e c)
